@@ -53,11 +53,14 @@ def corpus():
            make_message(4, ".dot\r\n..dots\r\n"), make_message(5, "x" * 3000)]
     for i, m in enumerate(gen):
         msgs[f"generated:{i}"] = m
+    # the quoting-stress messages of the response-grammar oracle (8-bit, encoded words, folded headers, multipart with message/rfc822)
+    for i, (_, raw) in enumerate(tricky_messages()):
+        msgs[f"tricky:{i}"] = raw
     return msgs
 
 
 class BodyFraming(Harness):
-    scope = "the repository's fixture corpus (asimap/test/fixtures/mhdir, ~30 messages incl. the 'problems' set) plus 5 generated edge messages; all data items of C16; partials <0.10>, <5.50>, <999999.5>"
+    scope = "the repository's fixture corpus (asimap/test/fixtures/mhdir, ~30 messages incl. the 'problems' set) plus 5 generated edge messages and 19 quoting-stress messages; all data items of C16; partials <0.10>, <5.50>, <999999.5>"
     exhaustive = False
     # genuine inconsistencies of the unchanged tree on three fixture messages (known findings; any other message must pass)
     known = {
@@ -136,13 +139,15 @@ class QuoteString(Harness):
     def check(self, inp):
         import itertools
 
-        from asimap.fetch import quote_string
+        from asimap.fetch import quote_string, quoted_str
 
         alpha = [b'"', b"\\", b"\r", b"\n", b"a", b" ", b"\xe9"]
         for n in range(inp["max_len"] + 1):
             for tup in itertools.product(alpha, repeat=n):
                 v = b"".join(tup)
                 q = quote_string(v)
+                if quoted_str(v.decode("latin-1")).encode("latin-1") != q:
+                    return {"observed": {"value": repr(v), "quoted_str": quoted_str(v.decode("latin-1")), "quote_string": repr(q)}, "clause": "quoted_str (text) and quote_string (bytes) agree"}
                 if not QUOTED_RE.fullmatch(q):
                     return {"observed": {"value": repr(v), "result": repr(q)}, "clause": "quote_string yields a well-formed quoted string"}
                 if unquote(q) != v.replace(b"\r", b"").replace(b"\n", b""):
@@ -240,4 +245,193 @@ class NameQuoting(Harness):
                 line = Authenticated._fmt_list_response(name, {"\\HasNoChildren"}, None).encode("latin-1")
                 if line != b'* LIST (\\HasNoChildren) "/" ' + q + b"\r\n":
                     return {"observed": {"name": name, "line": repr(line)}, "clause": "LIST sends the name as that quoted string"}
+        return None
+
+
+# ---------------------------------------------------------------------------------------------------------------
+# C07 (a)-(d): everything a session receives is tokenised by an independent RFC 3501 response tokenizer
+def tokenize_responses(data: bytes):
+    """Returns None when `data` is a sequence of complete CRLF-terminated responses whose literals have their announced length, whose
+    quoted strings contain no raw CR / LF / unescaped quote and whose parentheses balance on every response; else a description."""
+    pos, n, depth, line_start = 0, len(data), 0, 0
+    while pos < n:
+        c = data[pos:pos + 1]
+        if c == b'"':
+            pos += 1
+            while True:
+                if pos >= n:
+                    return f"unterminated quoted string in response starting at {line_start}: {data[line_start:line_start + 80]!r}"
+                d = data[pos:pos + 1]
+                if d == b"\\":
+                    if data[pos + 1:pos + 2] not in (b"\\", b'"'):
+                        return f"bad escape in quoted string at {pos}: {data[max(line_start, pos - 30):pos + 10]!r}"
+                    pos += 2
+                elif d == b'"':
+                    pos += 1
+                    break
+                elif d in (b"\r", b"\n"):
+                    return f"raw CR/LF inside a quoted string at {pos}: {data[max(line_start, pos - 40):pos + 10]!r}"
+                else:
+                    pos += 1
+        elif c == b"{":
+            m = re.match(rb"\{(\d+)\}\r\n", data[pos:])
+            if not m:
+                pos += 1  # a brace inside an atom / text
+                continue
+            k = int(m.group(1))
+            pos += m.end()
+            if pos + k > n:
+                return f"literal announces {k} octets but only {n - pos} follow"
+            pos += k
+        elif c == b"(":
+            depth += 1
+            pos += 1
+        elif c == b")":
+            depth -= 1
+            if depth < 0:
+                return f"unbalanced ')' at {pos}: {data[max(line_start, pos - 40):pos + 5]!r}"
+            pos += 1
+        elif c == b"\r":
+            if data[pos:pos + 2] != b"\r\n":
+                return f"bare CR at {pos}: {data[max(line_start, pos - 40):pos + 5]!r}"
+            if depth != 0:
+                return f"response ends with {depth} unclosed '(': {data[line_start:line_start + 120]!r}"
+            pos += 2
+            line_start = pos
+        elif c == b"\n":
+            return f"bare LF at {pos}: {data[max(line_start, pos - 40):pos + 5]!r}"
+        else:
+            pos += 1
+    if line_start != n:
+        return f"last response is not CRLF-terminated: {data[line_start:line_start + 80]!r}"
+    return None
+
+
+def tricky_messages():
+    hdrs = [
+        ('Subject', 'plain subject'), ('Subject', 'say "hi" (really)'), ('Subject', 'back\\slash and (paren'), ('Subject', 'unbalanced ) paren " quote'),
+        ('Subject', 'caf\xe9 8-bit'), ('Subject', '=?utf-8?b?5pel5pys6Kqe?= encoded'), ('Subject', 'folded\r\n continuation line'), ('Subject', '日本語 ' * 30),
+        ('From', '"Doe, John (Jr.)" <john@example.com>'), ('From', 'a"b\\c@example.com'), ('To', 'group: a@x.org, "Q \\" uote" <q@y.org>;'),
+        ('To', '(comment) c@z.org, =?iso-8859-1?q?J=F6rg?= <j@d.de>'), ('Cc', 'no-at-sign'), ('Message-ID', '<weird"id(1)@host>'), ('In-Reply-To', '<a@b> <c"d@e>'),
+        ('Content-Type', 'text/plain; charset="utf-8"; name="fi\\"le (1).txt"'), ('Content-Disposition', 'attachment; filename="a b (c).txt"'), ('Content-Description', 'desc "quoted" \\ (x)'),
+    ]
+    for name, val in hdrs:
+        base = {"From": "f@example.com", "To": "t@example.com", "Subject": "s", "Date": "Mon, 1 Jan 2024 10:00:00 +0000", "Message-ID": "<m@x>"}
+        base[name] = val
+        try:
+            raw = "".join(f"{k}: {v}\r\n" for k, v in base.items()).encode("utf-8", "surrogateescape") + b"\r\nbody (with) \"chars\"\r\n"
+        except UnicodeEncodeError:
+            continue
+        yield f"{name}: {val[:30]}", raw
+    # multipart with odd parameters
+    yield "multipart", (b'From: a@b\r\nSubject: mp\r\nMIME-Version: 1.0\r\nContent-Type: multipart/mixed; boundary="b(1)"\r\n\r\n--b(1)\r\nContent-Type: text/plain; name="x\\"y"\r\n\r\nhello\r\n'
+                        b'--b(1)\r\nContent-Type: message/rfc822\r\n\r\nSubject: inner "q" (p)\r\nFrom: i@j\r\n\r\ninner body\r\n--b(1)--\r\n')
+
+
+class ResponseGrammar(Harness):
+    """C07 (a)-(d): every byte a session receives for FETCH ENVELOPE / BODYSTRUCTURE / BODY[] / FLAGS, LIST, LSUB, STATUS and error
+    replies, on messages and mailbox names chosen to stress quoting, goes through an independent response tokenizer."""
+
+    scope = "20 messages with quotes, backslashes, parentheses, 8-bit, encoded words, folded lines, groups and comments in their headers and MIME parameters; mailbox names with quote, backslash, parentheses, space and 8-bit letters; FETCH (ENVELOPE BODYSTRUCTURE FLAGS UID RFC822.SIZE BODY.PEEK[HEADER]), LIST, LSUB, STATUS, SELECT, SEARCH, NO and BAD replies"
+    exhaustive = False
+
+    def inputs(self, tier, seed):
+        for i, (name, _) in enumerate(tricky_messages()):
+            yield {"message": i, "what": name}
+        yield {"names": True}
+
+    def check(self, inp):
+        async def go():
+            if inp.get("names"):
+                async with World({"inbox": 1}) as w:
+                    a = w.session("a")
+                    out = []
+                    for nm in ['plain', 'with space', 'q"uote', 'back\\slash', 'par(en)s', 'caf\xe9', 'deep/er "x"/y']:
+                        q = '"' + nm.replace("\\", "\\\\").replace('"', '\\"') + '"'
+                        out += await a.cmd(f"CREATE {q}")
+                        out += await a.cmd(f"SUBSCRIBE {q}")
+                        out += await a.cmd(f"STATUS {q} (MESSAGES UIDNEXT UNSEEN)")
+                    out += await a.cmd('LIST "" *')
+                    out += await a.cmd('LSUB "" *')
+                    out += await a.cmd('LIST (SUBSCRIBED) "" "*" RETURN (CHILDREN STATUS (MESSAGES))')
+                    out += await a.cmd('SELECT "no such"')
+                    out += await a.cmd('STATUS "q\\"uote" (BOGUS)') if False else []
+                    return "".join(out).encode("latin-1")
+            raw = list(tricky_messages())[inp["message"]][1]
+            async with World({"inbox": [raw]}) as w:
+                a = w.session("a")
+                out = await a.cmd("SELECT inbox")
+                out += await a.cmd("FETCH 1 (ENVELOPE BODYSTRUCTURE FLAGS UID RFC822.SIZE INTERNALDATE)")
+                out += await a.cmd("FETCH 1 (BODY BODY.PEEK[HEADER] BODY.PEEK[TEXT]<0.20>)")
+                out += await a.cmd("UID SEARCH SUBJECT \"s\"")
+                out += await a.cmd("STORE 1 +FLAGS (kw \\Flagged)")
+                out += await a.cmd("FETCH 9 FLAGS")
+                return "".join(out).encode("latin-1")
+
+        data = run(go(), timeout=90)
+        err = tokenize_responses(data)
+        return {"observed": err, "clause": "complete CRLF-terminated responses, literal counts, quoted strings without raw CR/LF/unescaped quote, balanced parentheses"} if err else None
+
+
+def _has_raw_8bit_header(raw: bytes) -> bool:
+    head = raw.split(b"\r\n\r\n", 1)[0].split(b"\n\n", 1)[0]
+    return any(c >= 0x80 for c in head)
+
+
+class AppendRoundTrip(Harness):
+    """C16 (h): a message stored with APPEND comes back with the same header fields and the same body content."""
+
+    scope = "the quoting-stress messages and generated edge messages, APPENDed through the real parser as literals (CRLF line ends), then fetched with BODY.PEEK[]: header fields (name, unfolded value) in order and body octets compared"
+    exhaustive = False
+    # known finding F53: a header field with raw 8-bit octets (not RFC 2047 encoded) is rewritten on the way in
+    known = {"F53": lambda i, bad: _has_raw_8bit_header(corpus()[i["message"]]) and bad["clause"] == "returned with the same header fields"}
+
+    def inputs(self, tier, seed):
+        for name in corpus():
+            if name.startswith(("tricky:", "generated:")):
+                yield {"message": name}
+
+    def check(self, inp):
+        import email
+        import email.policy
+
+        raw = corpus()[inp["message"]]
+        raw = re.sub(rb"(?<!\r)\n", b"\r\n", raw)
+
+        async def go():
+            from asimap.parse import IMAPClientCommand
+
+            async with World({"inbox": 0}) as w:
+                a = w.session("a")
+                await a.cmd("SELECT inbox")
+                line = b"x1 APPEND inbox {%d}\r\n" % len(raw) + raw + b"\r\n"
+                c = IMAPClientCommand(line.decode("latin-1"))
+                c.parse()
+                await a.h.command(c)
+                r = a.proxy.take()
+                if not any(" OK " in l for l in r[-1:]):
+                    return None, f"APPEND refused: {r[-1:]}"
+                out = await a.cmd("FETCH 1 (BODY.PEEK[])")
+                p = parse_literals(out)
+                return (p[0][1].get("BODY[]") if p else None), None
+
+        got, err = run(go(), timeout=60)
+        if err:
+            return {"observed": err, "clause": "a well-formed message can be appended"}
+        if got is None:
+            return {"observed": "no BODY[] literal", "clause": "the appended message can be fetched"}
+
+        def view(b):
+            m = email.message_from_bytes(b, policy=email.policy.compat32)
+            hdrs = [(k.lower(), re.sub(r"\s+", " ", str(v)).strip()) for k, v in m.items()]
+            body = b.split(b"\r\n\r\n", 1)[1] if b"\r\n\r\n" in b else b""
+            return hdrs, body.rstrip(b"\r\n")
+
+        h1, b1 = view(raw)
+        h2, b2 = view(got)
+        if h1 != h2:
+            diff = [x for x in h1 if x not in h2][:3], [x for x in h2 if x not in h1][:3]
+            return {"observed": {"missing_or_changed": str(diff)[:400]}, "clause": "returned with the same header fields"}
+        if b1 != b2:
+            return {"observed": {"stored": len(b1), "returned": len(b2)}, "clause": "returned with the same body content"}
         return None
